@@ -34,6 +34,37 @@ CLAIMS = {
             "Correspondence exhaustive over interface/method oneway x 17 return categories.",
             "Coq proof + exhaustive differential correspondence"),
 }
+CLAIMS.update({
+    "C11": ("proof", "Coq theorems: the item-key environment, every file's tree and ordered diagnostic list, and the whole validate() result do "
+            "not depend on the order in which files are held (C11_environment/_file/_validate: permutation invariance, incl. "
+            "duplicate keys); diagnostics are sorted by start offset and the sort is stable. In the repaired code no hash container is "
+            "iterated, so the model has no order oracle left. Separate threads/instances are exercised by the harness (repeat, "
+            "re-insert in other orders, other thread); separate processes are not modelled.",
+            "Coq proof (permutation invariance of a fold with a commutative merge, sortedness/stability) + repetition/shuffling harness"),
+    "C12": ("proof", "Coq theorem (refinement): for every operation sequence and every parse function and file system, the parser state "
+            "equals that of a fresh parser holding the abstract id->content map, hence validate() agrees (C12_history); map laws for "
+            "replace/remove; validate is pure; failing add_file changes nothing. The real Parser is driven through the same histories "
+            "and compared after every step with a fresh Parser and with the model's key set.",
+            "Coq refinement proof to an abstract map + history-driven differential testing"),
+    "C13": ("proof", "Coq theorem: validate_file consults the environment only at the qualified names of the file's own imports "
+            "(C13_local), lifted to projects (C13_project), with a computed negative control. The implementation is exercised with "
+            "project perturbations that keep those facts and its result digest compared.",
+            "Coq proof (locality of environment lookups) + perturbation testing of the implementation"),
+    "C15": ("proof", "Coq theorem: for every (stateful, possibly breaking) visitor the model of walk_symbols_with_control_flow behaves as running "
+            "the visitor over the plain node list symbols(level, tree) -- hence filter = filter, find = first match for every predicate "
+            "incl. the package, levels are the stated sub-sequences, every type at every depth with array elements first. Model tied to "
+            "traverse.rs/symbol.rs by comparing visit sequences, filter/find results for kind/name/k-th predicates on generated trees.",
+            "Coq proof (monadic laws, nested induction on type trees) + differential correspondence"),
+    "C16": ("proof", "Coq theorems: range_contains is inclusive containment in the lexicographic (line, column) order; position lookup returns "
+            "the first symbol of the level whose range contains the position, or nothing (C16_lookup/_found/_none). Correspondence at "
+            "every character position of generated documents x three levels.",
+            "Coq proof + exhaustive-per-document differential correspondence"),
+    "C17": ("proof", "Coq theorems: the item symbol's qualified name is package.Name = the registration key for all three kinds; a reference "
+            "that the scoping rules resolve to an interface/parcelable/enum carries the key of a project file whose item symbol has "
+            "exactly that qualified name and kind (C17_reference); member/import/package names as stated. Names compared on every "
+            "visited symbol of generated multi-file projects.",
+            "Coq proof + differential correspondence"),
+})
 PENDING = {}
 
 def main():
